@@ -39,6 +39,20 @@ class Ctx:
         self.floors: List[dict] = []
 
     # ---- recording ---------------------------------------------------------
+    def _rule_summary(self) -> List[dict]:
+        """Per rule: how many obligations, how many held, which functions of /repo were read."""
+        by: Dict[str, dict] = {}
+        for i in self.instances:
+            r = by.setdefault(i["rule"], {"rule": i["rule"], "obligations": 0, "held": 0, "functions": set()})
+            r["obligations"] += 1
+            r["held"] += 1 if i["status"] == "ok" else 0
+            r["functions"].add(i["function"])
+        out = []
+        for k in sorted(by):
+            r = by[k]
+            out.append({"rule": r["rule"], "obligations": r["obligations"], "held": r["held"], "functions": sorted(r["functions"])[:40]})
+        return out
+
     def ok(self, rule: str, func: str, construct: str, detail: Optional[str] = None, nontrivial: bool = True) -> None:
         self.instances.append(
             {"rule": rule, "function": func, "construct": construct, "status": "ok", "detail": detail, "nontrivial": nontrivial}
@@ -139,7 +153,7 @@ class Ctx:
             "checker_cmd": "/venv/bin/python -m pv check %s --tier %s" % (self.prop, self.tier),
             "trusted_base": trusted_base
             or ["python ast module", "pv resolver + CFG builder", "rule/spec tables in pv/ (transcribed from the property text and docstrings)"],
-            "rules_run": self.rules_run,
+            "rules_run": self._rule_summary(),
             "floors": self.floors,
             "source_digest": self.prog.digest if self.prog is not None else "",
             "modules_analysed": len(self.prog.modules) if self.prog is not None else 0,
